@@ -1,6 +1,6 @@
 (* Uniform executable entry point of the model for the correspondence check:
    run_case tag args = the observable outputs the implementation must produce for the same case. *)
-From DDSV Require Import base.Machine model.View model.Layout model.DecoderSM model.EncoderSM model.Split model.DecodeScript model.Formats gen.GenFormats spec.SpecLayout model.HeaderTypes gen.GenHeader model.Header model.Numeric model.BCdec model.BC7 model.Float model.Convert model.Uncomp model.Crop model.Encode.
+From DDSV Require Import base.Machine model.View model.Layout model.DecoderSM model.EncoderSM model.Split model.DecodeScript model.Formats gen.GenFormats spec.SpecLayout model.HeaderTypes gen.GenHeader model.Header model.Numeric model.BCdec model.BC7 model.Float model.Convert model.Uncomp model.Crop model.Encode model.BC6 model.BCF32.
 
 Local Open Scope Z_scope.
 
@@ -315,14 +315,17 @@ Definition bcfmt_of (k : Z) : bcfmt :=
   else if k =? 5 then FRXGB else if k =? 6 then FBC4U else if k =? 7 then FBC4S else if k =? 8 then FBC5U else FBC5S.
 Definition run_c03 (a : list Z) : list Z :=
   match a with
-  | k :: rgb :: wide :: bytes =>
-      if k =? 10 then
+  | k :: rgb :: prec :: bytes =>
+      let b := map zn bytes in
+      if prec =? 2 then BCF32.bc_decode_f32 k (negb (rgb =? 0)) b
+      else if (k =? 11) || (k =? 12) then BCF32.bc6_out prec (k =? 12) b
+      else if k =? 10 then
         (* BC7: the implementation-shaped model and the specification-shaped one must agree on the block as well *)
-        let m := bc7_model (map zn bytes) in
-        if zlist_eqb (map nz (concat m)) (map nz (concat (bc7_spec (map zn bytes))))
-        then map nz (concat (widen (negb (wide =? 0)) (if rgb =? 0 then m else map (firstn 3) m)))
+        let m := bc7_model b in
+        if zlist_eqb (map nz (concat m)) (map nz (concat (bc7_spec b)))
+        then map nz (concat (widen (negb (prec =? 0)) (if rgb =? 0 then m else map (firstn 3) m)))
         else [-7]
-      else map nz (concat (bc_decode (bcfmt_of k) (negb (rgb =? 0)) (negb (wide =? 0)) (map zn bytes)))
+      else map nz (concat (bc_decode (bcfmt_of k) (negb (rgb =? 0)) (negb (prec =? 0)) b))
   | _ => [-99]
   end.
 
